@@ -118,3 +118,20 @@ Proof.
   intros fs m pos H. unfold match_dispatch, located_at. rewrite (pos_to_linecol_exact _ _ H).
   cbn [wrap mm_process]. unfold fill, select, no_loc. cbn. reflexivity.
 Qed.
+
+Lemma obj_unlocated : forall fs m pos pos_end wrapped, in_text fs m pos ->
+  obj_dispatch process_fills location_keys fs m pos pos_end wrapped (RaisesTx no_loc)
+  = Fails (obj_location fs m pos pos_end).
+Proof. intros. rewrite obj_textx_error by assumption. reflexivity. Qed.
+
+Lemma supplied_kept : forall e loc,
+  (forall x, r_line e = Some x -> r_line (completed e loc) = Some x) /\
+  (forall x, r_col e = Some x -> r_col (completed e loc) = Some x) /\
+  (forall x, r_nchar e = Some x -> r_nchar (completed e loc) = Some x) /\
+  (forall x, r_file e = Some x -> r_file (completed e loc) = Some x).
+Proof. intros e loc. repeat split; intros x H; cbn; rewrite H; reflexivity. Qed.
+
+Lemma other_outcomes : forall fs m pos pos_end wrapped,
+  obj_dispatch process_fills location_keys fs m pos pos_end wrapped Returns = Loaded /\
+  obj_dispatch process_fills location_keys fs m pos pos_end false RaisesOther = Propagates.
+Proof. intros. split; [apply obj_returns | apply obj_unwrapped_other]. Qed.
